@@ -233,6 +233,42 @@ func keyPath(v ssa.Value) string {
 	return "expr"
 }
 
+// keyPathsOf: the descriptions a lookup's key can have: its own, or - when the key is a parameter of the function (a `lookupPacket(name,
+// ..)` helper that tests the name and reports the miss itself) - those of the arguments at the function's call sites (two levels).
+func (w *World) keyPathsOf(fn *ssa.Function, key ssa.Value) []string {
+	var out []string
+	var walk func(fn *ssa.Function, v ssa.Value, depth int)
+	walk = func(fn *ssa.Function, v ssa.Value, depth int) {
+		p, ok := stripIdentity(v).(*ssa.Parameter)
+		if !ok || depth > 2 || fn == nil {
+			out = append(out, keyPath(v))
+			return
+		}
+		idx := -1
+		for i, q := range fn.Params {
+			if q == p {
+				idx = i
+			}
+		}
+		n := w.CallGraph().Nodes[fn]
+		sites := 0
+		if n != nil && idx >= 0 {
+			for _, e := range n.In {
+				if e.Site == nil || e.Site.Common().StaticCallee() != fn || idx >= len(e.Site.Common().Args) {
+					continue
+				}
+				sites++
+				walk(e.Caller.Func, e.Site.Common().Args[idx], depth+1)
+			}
+		}
+		if sites == 0 {
+			out = append(out, keyPath(v))
+		}
+	}
+	walk(fn, key, 0)
+	return out
+}
+
 func sameKey(a, b ssa.Value) bool {
 	if stripIdentity(a) == stripIdentity(b) {
 		return true
@@ -1298,8 +1334,13 @@ func c12Resolution(w *World, r *Report) {
 				if wn.mapd != "" && mapDesc(lk.X) != wn.mapd {
 					return
 				}
-				kp := keyPath(lk.Index)
-				if kp != wn.key && strings.TrimPrefix(kp, ".") != strings.TrimPrefix(wn.key, ".") {
+				hit := false
+				for _, kp := range w.keyPathsOf(fn, lk.Index) {
+					if kp == wn.key || strings.TrimPrefix(kp, ".") == strings.TrimPrefix(wn.key, ".") {
+						hit = true
+					}
+				}
+				if !hit {
 					return
 				}
 				found = true
